@@ -472,6 +472,12 @@ void vk_run_case(vk::Choice& c) {
       }
     }
   }
+  {
+    std::string dg = vk::sfmt("root=%d:%ld:%ld@%d |", e.root_chan, e.root_val, e.root_err, e.root_signals);
+    for (auto& x : e.trace) dg += vk::sfmt(" %d.%d.%ld", x.kind, x.frame, x.a);
+    for (size_t i = 0; i < e.runs.size(); ++i) dg += vk::sfmt(" r%zu:%d%d%d", i, e.runs[i].chan, (int)e.runs[i].stopped_at_start, (int)(e.runs[i].t_stop_seen >= 0));
+    cx.digest = dg;
+  }
   if (!cx.failed && !e.live_ops.empty()) SR_FAIL(P, "awaited_op_leaked", "%zu awaited operation state(s) were never destroyed", e.live_ops.size());
   bool by_exc = false, by_done = false;
   if (model_valid) { if (want.chan == ERROR) by_exc = true; if (want.chan == DONE) by_done = true; for (auto& x : m.body) if (x.kind == E_CATCH) by_exc = true; for (auto& x : m.body) if (x.kind == E_RESUME && x.a == -5) by_done = true; }
